@@ -15,6 +15,7 @@ import (
 	"strings"
 
 	"verif/checker/internal/lin"
+	"verif/checker/internal/sym"
 )
 
 type Value interface{}
@@ -24,8 +25,9 @@ type IntV struct{ E *lin.Expr }
 
 // NumV is a non-integer number (float configuration, literal, arithmetic on them).
 type NumV struct {
-	Lit  string // literal text when it is one ("" otherwise)
-	From string // provenance for diagnostics
+	Lit  string   // literal text when it is one ("" otherwise)
+	From string   // provenance for diagnostics
+	Sym  sym.Expr // symbolic value over configuration symbols (nil when unknown)
 }
 
 // ConstV is a named constant of a non-numeric-int type (strategy.Hold, …) or an
